@@ -223,6 +223,53 @@ def _mask_sign_symmetric(ctx, stmt, loc, what):
            'on entries (-5, 5, 0) the mask selects %s' % vals, node=stmt, key=what + ' cleanup')
 
 
+def cleanup_keeps_signs(ctx, rule):
+    """the round-off clean-up of transform() and of the Cij setter, interpreted on a concrete stiffness with negative entries and one entry of relative size 1e-12: negative
+    constants (C14 of a rhombohedral crystal, most entries of a rotated tensor) are kept, the round-off entry becomes zero; at GPa- and Pa-like scales alike"""
+    R = sp.Rational
+    fn = ctx.fn(EC, 'ElasticConstants.transform')
+    setter = ctx.fn(EC, 'ElasticConstants.Cij', setter=True)
+    for stag, sc in (('order one', R(1)), ('1e+11', R(10) ** 11)):
+        M = np.empty((6, 6), dtype=object)
+        for i in range(6):
+            for j in range(6):
+                M[i, j] = (R(30) if i == j else R(((i + 2 * j + 2 * i * j + (j + 2 * i)) % 5) - 2) * 2) * sc      # symmetric, entries in {-4 .. 4} off the diagonal
+        M = (M + M.T) / 2
+        M[0, 5] = M[5, 0] = R(3, 10 ** 11) * sc                      # 1e-12 of the largest entry: round-off
+        want = M.copy()
+        want[0, 5] = want[5, 0] = R(0)
+        neg = [(i, j) for i in range(6) for j in range(6) if M[i, j] < 0]
+        # the setter
+        obj = _obj(ctx, None)
+        try:
+            live = [q for q in SymEval(module_aliases(ctx.mod(EC))).run_fn(setter, [obj, M.copy()], {}) if q.done == 'return']
+        except WouldRaise:
+            live = []
+        except Opaque as e:
+            raise AnalysisError('Cij setter (%s): %s' % (stag, e))
+        got = obj.attrs.get('_ElasticConstants__c_ij')
+        ok = len(live) == 1 and got is not None and all(is_zero(sp.nsimplify(a_) - b_, deep=False) for a_, b_ in zip(np.ravel(got), np.ravel(want)))
+        ctx.ob(rule, EC + '::ElasticConstants.Cij.setter', 'entries of %s (%d of them negative), one round-off entry: stored as given with only the round-off entry zeroed' % (stag, len(neg)), bool(ok),
+               'negative entries lost at %s' % [ij for ij in neg if got is not None and is_zero(got[ij], deep=False)][:4] if got is not None else 'refused', node=setter, key='cleanup setter ' + stag)
+        # transform with the identity as new axes
+        obj = _obj(ctx, M.copy())
+        ev = SymEval(module_aliases(ctx.mod(EC)))
+        ev.globals = {'ElasticConstants': lambda **kw: Made(**kw), 'axes_check': lambda a, **k: np.array(sp.eye(3).tolist(), dtype=object)}
+        try:
+            live = [q for q in ev.run_fn(fn, [obj, np.array(sp.eye(3).tolist(), dtype=object)], {}) if q.done == 'return']
+        except WouldRaise:
+            live = []
+        except Opaque as e:
+            raise AnalysisError('transform (%s): %s' % (stag, e))
+        r = live[0].ret if len(live) == 1 else None
+        okr = isinstance(r, Made) and 'Cijkl' in r.kw
+        if okr:
+            C4w = tensor4(want)
+            okr = all(is_zero(sp.nsimplify(r.kw['Cijkl'][idx]) - C4w[idx], deep=False) for idx in itertools.product(range(3), repeat=4))
+        ctx.ob(rule, EC + '::ElasticConstants.transform', 'entries of %s, identity axes: the tensor comes back as it was, negative constants kept, only the round-off entry zeroed' % stag, bool(okr), node=fn,
+               key='cleanup transform ' + stag)
+
+
 def transform(ctx):
     fn = ctx.fn(EC, 'ElasticConstants.transform')
     loc = EC + '::ElasticConstants.transform'
@@ -246,13 +293,7 @@ def transform(ctx):
         want = np.einsum('ig,jh,km,ln,ghmn->ijkl', T, T, T, T, C4)
         bad = [idx for idx in itertools.product(range(3), repeat=4) if sp.expand(got[idx] - want[idx]) != 0]
         ctx.ob('TRANSFORM', loc, 'C\'_ijkl = T_ig T_jh T_km T_ln C_ghmn for all 81 entries (T = rows of the new axes)', not bad, 'differs at %s' % bad[:3], node=fn)
-    cl = [s for s in fn.body if _is_cleanup(s)]
-    ctx.need(len(cl) <= 1, 'transform: more than one clean-up statement')
-    for s in cl:
-        _mask_sign_symmetric(ctx, s, loc, 'transform')
-    setter = ctx.fn(EC, 'ElasticConstants.Cij', setter=True)
-    for s in [x for x in setter.body if _is_cleanup(x)]:
-        _mask_sign_symmetric(ctx, s, EC + '::ElasticConstants.Cij.setter', 'Cij setter')
+    cleanup_keeps_signs(ctx, 'CLEANUP')
     # axes are validated / normalised by axes_check before use
     ac = [x for x in calls_in(fn) if norm(x.func) == 'axes_check']
     ctx.ob('TRANSFORM', loc, 'the axes go through axes_check (orthogonal, right-handed, normalised) before the rotation is built', len(ac) == 1, node=fn)
